@@ -431,6 +431,10 @@ def apply_gufunc(
     loop_output_chunks = tmp.chunks
     keys = list(flatten(tmp.__dask_keys__()))
     name, token = keys[0][0].split("-")
+    # The leaves below alias tmp's blocks by index and bake loop_output_chunks in:
+    # pin that layout so a later rewrite of tmp onto other chunks cannot
+    # desynchronize them.
+    tmp = tmp.freeze_chunks()
 
     ### *) Treat direct output
     if nout is None:
